@@ -497,7 +497,7 @@ Proof.
     intros [= <-]. apply NV_maybe_delete_session, NV_set_lastProcessed, Hp.
   - destruct (update_last_cmid _ _ _ _ sv) as [sv1|] eqn:Hu; cbn; intros [= <-]; [|exact H].
     apply (NV_update_last_cmid _ _ _ _ _ _ Hu H).
-  - destruct parsed; cbn; intros [= <-]; [apply NV_set_config|]; exact H.
+  - destruct (config_in_force _ _ _); cbn; intros [= <-]; [apply NV_set_config|]; exact H.
 Qed.
 
 (* ---- histories -------------------------------------------------------------------------------------------- *)
@@ -871,7 +871,7 @@ Section Limits.
       intros [= <-]. apply Lim_maybe_delete_session, Lim_set_lastProcessed. exact Hp.
     - destruct (update_last_cmid _ _ _ _ sv) as [sv1|] eqn:Hu; cbn; intros [= <-]; [|exact H].
       apply (Lim_update_last_cmid _ _ _ _ _ _ Hu H).
-    - destruct parsed as [g|]; [exfalso; eapply Hnc; reflexivity|]. cbn. intros [= <-]. exact H.
+    - destruct (config_in_force _ _ _) as [g|] eqn:Hcf; [exfalso; eapply Hnc; rewrite (config_in_force_Some _ _ _ _ Hcf); reflexivity|]. cbn. intros [= <-]. exact H.
   Qed.
 End Limits.
 
@@ -889,8 +889,12 @@ Theorem limits_step e sv en sv' :
   (max_sessions sv = 0 \/ nsess sv' <= N.max (nsess sv) (max_sessions sv))%N /\
   (max_channels sv = 0 \/ nchan sv' <= N.max (nchan sv) (max_channels sv))%N /\
   match en with
-  | EConfig _ _ _ (Some g) =>
-      max_sessions sv' = g_maxSessions g /\ max_channels sv' = g_maxChannels g /\ nsess sv' = nsess sv /\ nchan sv' = nchan sv
+  | EConfig _ _ rev (Some g) =>
+      (* takes effect only if it carries the revision in force + 1 (fix b3bad2c); otherwise nothing changes *)
+      (if (rev =? g_revision (sv_config sv) + 1)%N
+       then max_sessions sv' = g_maxSessions g /\ max_channels sv' = g_maxChannels g
+       else max_sessions sv' = max_sessions sv /\ max_channels sv' = max_channels sv) /\
+      nsess sv' = nsess sv /\ nchan sv' = nchan sv
   | _ => max_sessions sv' = max_sessions sv /\ max_channels sv' = max_channels sv
   end.
 Proof.
@@ -900,8 +904,8 @@ Proof.
   { intros Hnc. eapply Lim_apply_entry; [apply Lim_start|exact Hnc|exact Hr]. }
   destruct en as [id un auth|id un session q|id un session cmid ra data|id un session cmid data|id un rev [g|]].
   1-4,6: destruct Hgen as [h1 h2 h3 h4]; [intros; discriminate|]; (split; [exact h3|split; [exact h4|split; [exact h1|exact h2]]]).
-  cbn in Hr. injection Hr as <-. split; [right; unfold nsess; cbn; lia|]. split; [right; unfold nchan; cbn; lia|].
-  repeat split.
+  cbn [apply_entry config_in_force] in Hr. destruct (rev =? g_revision (sv_config sv) + 1)%N; cbn in Hr; injection Hr as <-;
+    (split; [right; unfold nsess; cbn; lia|]); (split; [right; unfold nchan; cbn; lia|]); repeat split.
 Qed.
 
 (* createSessionLocked at the limit: ErrSessionLimitReached, nothing changes *)
@@ -939,7 +943,8 @@ Proof.
   destruct en as [id un auth|id un session q|id un session cmid ra data|id un session cmid data|id un rev [g|]].
   1-4,6: destruct Hm as [-> ->]; split; [destruct Ws as [?|?]; [now left|]; destruct Bs as [?|?]; [now left|right; lia]
                                            |destruct Wc as [?|?]; [now left|]; destruct Bc as [?|?]; [now left|right; lia]].
-  destruct Hm as (-> & -> & -> & ->). exact Hk.
+  destruct Hm as (Hl & -> & ->). destruct (rev =? g_revision (sv_config sv) + 1)%N; destruct Hl as [-> ->]; [exact Hk|].
+  split; [exact Ws|exact Wc].
 Qed.
 
 Theorem limits_run e sv es sv' :
